@@ -391,15 +391,12 @@ func main() {
 	genMisc(o, pkgs, all)
 	genLockSections(o, pkgs["."], *repo)
 	genSharedWrites(o, all)
-<<<<<<< HEAD
 	genFinishers(o, pkgs["."])
+	genFinisherWrites(o, pkgs["."])
 	// generators added by later work live in their own files extract/gen_<property>.go and register themselves in init()
 	for _, g := range extraGens {
 		g(o, pkgs, all, *repo)
 	}
-=======
-	genFinisherWrites(o, pkgs["."])
->>>>>>> sC16
 
 	if *factsPath != "" {
 		b, _ := json.MarshalIndent(o.facts, "", " ")
